@@ -95,12 +95,31 @@ def gen_world(seed, tier):
     cons = gen.subpath_constraints(rng, gd, max_c=2)
     pool["cons0"] = {"type": "constraints", "v": cons}
     pool["ign0"] = {"type": "edges", "v": [[e[0], e[1]] for e in gd["edges"] if rng.random() < 0.2][:1]}
+    r5 = random.Random(H(seed, "c18r9"))
+    # an ignore list for the node-weighted reading (nodes, not edges)
+    inner_nodes = [x for x in gd["nodes"] if any(x in r_[1:-1] for r_ in gd["routes"])]
+    pool["ignn0"] = {"type": "plain", "v": [r5.choice(inner_nodes)] if inner_nodes else []}
+    # a noisy node-weighted reading (for the error models: with consistent weights every optimum is 0 and nothing shows)
+    g6 = gen.node_weighted(r5, gd)
+    if g6 is not None:
+        for nw in g6["node_weights"]:
+            if r5.random() < 0.4:
+                nw[1] = max(0, nw[1] + r5.choice([-2, -1, 1, 2, 3]))
+        pool["G6"] = {"type": "graph", "v": g6}
+    # graphs carry whatever "id" the caller gave them; two different graphs may carry the same one
+    if r5.random() < 0.5:
+        gid = r5.choice(["simple_graph", "g", "graph number = 1"])
+        g5 = gen.dag_layered(r5, max_nodes=5, max_edges=7, max_routes=3)
+        g5["id"] = gid
+        gd["id"] = gid
+        pool["G5"] = {"type": "graph", "v": g5}
     e = rng.choice(gd["edges"])
     pool["es0"] = {"type": "scaling", "v": [[[e[0], e[1]], rng.choice([0.5, 1, 0])]]}
     nroutes = len(gd["routes"])
     ops = []
     nmodels = rng.randint(2, 5)
     h = 0
+    prev_generic = None
     for m in range(nmodels):
         cyc = use_cyc and rng.random() < 0.45
         cname = rng.choice(CLASSES_CYC if cyc else CLASSES_DAG)
@@ -128,6 +147,8 @@ def gen_world(seed, tier):
                     args["optimization_options"] = "@" + rng.choice(["oo0", "oo1"])
                 if rng.random() < 0.5:
                     args["solver_options"] = "@so0"
+                if cname == "NumPathsOptimization" and r5.random() < 0.5:
+                    args["time_limit"] = r5.choice([100, 1000])         # the optimiser's own overall budget
             ops.append({"op": "construct", "h": h, "class": cname, "args": args})
             for s_ in ["solve"] + rng.sample(["get_solution", "get_solution", "solve", "get_objective_value"], rng.randint(1, 3)):
                 if s_ == "get_objective_value" and cname in ("MinGenSet", "MinSetCover"):
@@ -155,6 +176,8 @@ def gen_world(seed, tier):
                 ops.append({"op": s_, "h": h})
             h += 1
             continue
+        if not cyc and cname in ("kMinPathError", "kLeastAbsErrors") and r5.random() < 0.4:
+            args["G"] = "@G2"          # a non-conserving weighting: the error models have something to minimise
         if cname.startswith("k"):
             args["k"] = max(1, len(g["routes"]) + rng.choice([0, 0, 1, -1]))
         if cname not in models.COVER_CLASSES:
@@ -178,6 +201,13 @@ def gen_world(seed, tier):
             args["solution_weights_superset"] = list(gd["weights"]) + [rng.randint(1, 4)]
         if rng.random() < 0.08:
             args["k"] = 0                       # a constructor that raises (after touching shared state?)
+        if not cyc and "G5" in pool and cname in ("kFlowDecomp", "MinFlowDecomp", "kPathCover", "MinPathCover") and r5.random() < 0.4:
+            args["G"] = "@G5"          # another graph with the same id as G0
+            gname = "G5"
+            for a_ in ("subpath_constraints", "elements_to_ignore", "error_scaling", "solution_weights_superset"):
+                args.pop(a_, None)
+            if "k" in args and args["k"]:
+                args["k"] = max(1, len(pool["G5"]["v"]["routes"]) + r5.choice([0, 1]))
         if cname in models.CYCLIC_CLASSES and rngn.random() < 0.5:
             args["optimization_options"] = "@oo3"       # the walk models' own options (fixing via bounds, >= rows, ...)
         if cname not in models.COVER_CLASSES and rngn.random() < (0.5 if cname == "MinFlowDecompCycles" else 0.25):
@@ -186,6 +216,18 @@ def gen_world(seed, tier):
             args["flow_attr_origin"] = "node"
             for a_ in ("subpath_constraints", "elements_to_ignore", "error_scaling", "solution_weights_superset"):
                 args.pop(a_, None)
+            if args["G"] == "@G3" and "G6" in pool and cname in ("kMinPathError", "kLeastAbsErrors") and r5.random() < 0.6:
+                args["G"] = "@G6"
+            if args["G"] in ("@G3", "@G6") and pool["ignn0"]["v"] and r5.random() < (0.5 if args["G"] == "@G6" else 0.35):
+                args["elements_to_ignore"] = "@ignn0"           # nodes to ignore, in the node-weighted reading
+        if prev_generic is not None and r5.random() < 0.2:
+            # a second model of the same kind on the same graph object, with nothing but the basic arguments: whatever the
+            # first one left behind on that object (or in a cache keyed by it) shows here
+            cname = prev_generic[0]
+            args = {k_: v_ for k_, v_ in prev_generic[1].items() if k_ in ("G", "k", "weight_type", "flow_attr_origin")}
+            if args.get("k") == 0:
+                args["k"] = 1
+        prev_generic = (cname, dict(args))
         ops.append({"op": "construct", "h": h, "class": cname, "args": args})
         seq = ["solve"] + rng.sample(["get_solution", "get_solution", "get_objective_value", "get_objective_value", "solve", "solve", "is_valid_solution"], rng.randint(1, 4))
         if cname.startswith("Min") and rng.random() < 0.3:
